@@ -1,2 +1,471 @@
-(* C04 — stub *)
-From Zap Require Import Base.Wire C04.Model.
+(* C04 -- proofs about zap's logging path over the interleaving machine. *)
+From Coq Require Import List ZArith Bool Arith Lia.
+From Coq.Strings Require Import Byte.
+Import ListNotations.
+From Zap Require Import Base.Wire C04.Model C04.Atomic C04.Merge.
+
+Notation zexec_acts := (exec_acts sinkst sact sact_run).
+Notation zexec_items := (exec_items sinkst sact sact_run item item_sec).
+Notation zon_lock := (on_lock sact item item_sec).
+
+(* ------------------------------------------------------------------ *)
+(* A. serial behaviour of the sink calls                                *)
+(* ------------------------------------------------------------------ *)
+Lemma exec_app_chunks u chunks : forall x,
+  bbuf (zexec_acts (map (AApp u) chunks) x) = bbuf x /\
+  forall v, outs (zexec_acts (map (AApp u) chunks) x) v = if Nat.eqb v u then outs x v ++ concat chunks else outs x v.
+Proof.
+  induction chunks as [|c r IH]; intros x; cbn [map concat].
+  - split; [reflexivity|]. intros v. cbn. destruct (Nat.eqb v u); [now rewrite app_nil_r|reflexivity].
+  - unfold exec_acts in *. cbn [fold_left sact_run]. destruct (IH (app_out x u c)) as [B O]. split; [exact B|].
+    intros v. rewrite O. cbn [app_out outs]. unfold upd. destruct (Nat.eqb_spec v u) as [->|]; [|reflexivity].
+    now rewrite <- app_assoc.
+Qed.
+
+Lemma exec_acts_app a b x : zexec_acts (a ++ b) x = zexec_acts b (zexec_acts a x).
+Proof. unfold exec_acts. apply fold_left_app. Qed.
+
+Lemma exec_locked_write chunks k : forall a x,
+  bbuf (zexec_acts (flat_map (fun u => map (AApp u) chunks) (seq a k)) x) = bbuf x /\
+  forall v, outs (zexec_acts (flat_map (fun u => map (AApp u) chunks) (seq a k)) x) v =
+            if (a <=? v) && (v <? a + k) then outs x v ++ concat chunks else outs x v.
+Proof.
+  induction k as [|k IH]; intros a x; cbn [seq flat_map].
+  - split; [reflexivity|]. intros v. unfold exec_acts. cbn [fold_left].
+    destruct (Nat.leb_spec a v), (Nat.ltb_spec v (a + 0)); cbn [andb]; try reflexivity; lia.
+  - rewrite exec_acts_app. destruct (exec_app_chunks a chunks x) as [B1 O1].
+    destruct (IH (S a) (zexec_acts (map (AApp a) chunks) x)) as [B2 O2]. split; [now rewrite B2|].
+    intros v. rewrite O2, O1.
+    destruct (Nat.eqb_spec v a) as [->|Hne].
+    + replace (S a <=? a) with false by (symmetry; apply Nat.leb_gt; lia). cbn [andb].
+      rewrite Nat.leb_refl. replace (a <? a + S k) with true by (symmetry; apply Nat.ltb_lt; lia). reflexivity.
+    + destruct (Nat.leb_spec (S a) v), (Nat.leb_spec a v), (Nat.ltb_spec v (S a + k)), (Nat.ltb_spec v (a + S k)); cbn; try reflexivity; lia.
+Qed.
+
+(* an item of branch j whose sink has kind kd *)
+Definition bitem (j : nat) (kd : bkind) (it : item) : Prop :=
+  it = IFlush j \/ exists chunks, it = IWrite j kd chunks.
+
+Lemma sflush_nil x : bbuf x = [] -> sflush x = x.
+Proof. intros H. unfold sflush. now rewrite H. Qed.
+
+Lemma serial_locked j k its : Forall (bitem j (KLocked k)) its -> forall x, bbuf x = [] ->
+  bbuf (zexec_items its x) = [] /\
+  forall u, u < k -> outs (zexec_items its x) u = outs x u ++ concat (flat_map item_lines its).
+Proof.
+  induction 1 as [|it r Hit _ IH]; intros x Hx.
+  - split; [exact Hx|]. intros u _. cbn. now rewrite app_nil_r.
+  - unfold exec_items in *. cbn [fold_left].
+    destruct Hit as [->|(chunks & ->)]; cbn [item_sec snd item_lines flat_map app].
+    + cbn. rewrite (sflush_nil x Hx). now apply IH.
+    + cbn [write_acts]. destruct (exec_locked_write chunks k 0 x) as [B O].
+      destruct (IH (zexec_acts (flat_map (fun u => map (AApp u) chunks) (seq 0 k)) x)) as [B' O']; [now rewrite B|].
+      split; [exact B'|]. intros u Hu. rewrite (O' u Hu), O. cbn [Nat.leb andb].
+      replace (u <? 0 + k) with true by (symmetry; apply Nat.ltb_lt; lia).
+      cbn [concat]. now rewrite <- app_assoc.
+Qed.
+
+(* BufferedWriteSyncer: whole-write alignment (DESIGN Appendix F, C12) on the raw stream *)
+Definition BInv (acc : list bytes) (x : sinkst) : Prop :=
+  exists done rest, acc = done ++ rest /\ outs x 0 = concat done /\ bbuf x = concat rest.
+
+Lemma binv_flush acc x : BInv acc x -> BInv acc (sflush x) /\ bbuf (sflush x) = [].
+Proof.
+  intros (done & rest & A & O & B). unfold sflush. destruct (bbuf x) as [|b r] eqn:E.
+  - split; [|exact E]. exists done, rest. now rewrite E.
+  - split; [|reflexivity]. exists (done ++ rest), []. cbn [outs bbuf]. rewrite upd_same. repeat split.
+    + now rewrite app_nil_r.
+    + now rewrite concat_app, O, B.
+Qed.
+
+Lemma binv_direct acc x p : BInv acc x -> bbuf x = [] ->
+  BInv (acc ++ [p]) {| outs := upd (outs x) 0 (outs x 0 ++ p); bbuf := [] |}.
+Proof.
+  intros (done & rest & A & O & B) E. exists (done ++ rest ++ [p]), []. cbn [outs bbuf]. rewrite upd_same. repeat split.
+  - now rewrite A, !app_nil_r, app_assoc.
+  - rewrite !concat_app, O. cbn. rewrite app_nil_r. rewrite E in B. now rewrite <- B.
+Qed.
+
+Lemma binv_append acc x p : BInv acc x -> BInv (acc ++ [p]) {| outs := outs x; bbuf := bbuf x ++ p |}.
+Proof.
+  intros (done & rest & A & O & B). exists done, (rest ++ [p]). cbn [outs bbuf]. repeat split.
+  - now rewrite A, app_assoc.
+  - exact O.
+  - rewrite concat_app, B. cbn. now rewrite app_nil_r.
+Qed.
+
+Lemma binv_write size acc x p : BInv acc x -> BInv (acc ++ [p]) (bws_write size x p).
+Proof.
+  intros I. unfold bws_write.
+  destruct ((size - length (bbuf x) <? length p) && negb (is_nil (bbuf x))) eqn:C.
+  - destruct (binv_flush acc x I) as [I1 E1]. cbn [bwrite]. rewrite E1.
+    destruct (size - length (@nil byte) <? length p); [now apply binv_direct|].
+    rewrite <- E1. now apply binv_append.
+  - cbn [bwrite]. destruct (size - length (bbuf x) <? length p) eqn:D.
+    + cbn [andb] in C. apply negb_false_iff in C. destruct (bbuf x) eqn:E; [|discriminate]. now apply binv_direct.
+    + now apply binv_append.
+Qed.
+
+Lemma serial_buffered j size its : Forall (bitem j (KBuffered size)) its -> forall acc x, BInv acc x ->
+  BInv (acc ++ flat_map item_lines its) (zexec_items its x).
+Proof.
+  induction 1 as [|it r Hit _ IH]; intros acc x I.
+  - cbn. now rewrite app_nil_r.
+  - unfold exec_items in *. cbn [fold_left].
+    destruct Hit as [->|(chunks & ->)]; cbn [item_sec snd item_lines flat_map app].
+    + cbn. apply IH. now apply binv_flush.
+    + cbn [write_acts]. unfold exec_acts at 2. cbn [fold_left sact_run].
+      change (concat chunks :: flat_map item_lines r) with ([concat chunks] ++ flat_map item_lines r).
+      rewrite app_assoc. apply IH. now apply binv_write.
+Qed.
+
+Lemma binv_sink0 : BInv [] sink0.
+Proof. exists [], []. auto. Qed.
+
+(* serial execution of the calls of one branch from the empty sink, then the final Sync *)
+Lemma serial_out j kd its : Forall (bitem j kd) its -> forall u, u < nsinks kd ->
+  outs (sflush (zexec_items its sink0)) u = concat (flat_map item_lines its).
+Proof.
+  intros F u Hu. destruct kd as [k|size]; cbn [nsinks] in Hu.
+  - destruct (serial_locked j k its F sink0 eq_refl) as [B O]. rewrite (sflush_nil _ B). now rewrite (O u Hu).
+  - assert (u = 0) by lia. subst u.
+    pose proof (serial_buffered j size its F [] sink0 binv_sink0) as I. cbn [app] in I.
+    destruct (binv_flush _ _ I) as [(done & rest & A & O & B) E]. rewrite E in B.
+    rewrite O, A, concat_app, <- B. now rewrite app_nil_r.
+Qed.
+
+(* before the final Sync a buffered sink holds a whole number of lines: a prefix of the order *)
+Lemma serial_buffered_prefix j size its : Forall (bitem j (KBuffered size)) its ->
+  exists n, outs (zexec_items its sink0) 0 = concat (firstn n (flat_map item_lines its)).
+Proof.
+  intros F. pose proof (serial_buffered j size its F [] sink0 binv_sink0) as (done & rest & A & O & _).
+  cbn [app] in A. exists (length done). rewrite A, firstn_app, Nat.sub_diag, firstn_all. cbn. now rewrite app_nil_r.
+Qed.
+
+(* ------------------------------------------------------------------ *)
+(* B. shape of the compiled code                                        *)
+(* ------------------------------------------------------------------ *)
+Lemma on_lock_app l a b : zon_lock l (a ++ b) = zon_lock l a ++ zon_lock l b.
+Proof. unfold on_lock. apply filter_app. Qed.
+
+Lemma on_lock_all l its : (forall it, In it its -> fst (item_sec it) = l) -> zon_lock l its = its.
+Proof.
+  induction its as [|it r IH]; intros H; [reflexivity|]. unfold on_lock in *. cbn [filter].
+  rewrite (H it (or_introl eq_refl)), Nat.eqb_refl. f_equal. apply IH. intros i Hi. apply H. now right.
+Qed.
+Lemma on_lock_none l its : (forall it, In it its -> fst (item_sec it) <> l) -> zon_lock l its = [].
+Proof.
+  induction its as [|it r IH]; intros H; [reflexivity|]. unfold on_lock in *. cbn [filter].
+  destruct (Nat.eqb_spec (fst (item_sec it)) l) as [E|_]; [now elim (H it (or_introl eq_refl))|].
+  apply IH. intros i Hi. apply H. now right.
+Qed.
+
+(* per-branch code generators: everything they emit for branch (j, kd) is a call on lock j *)
+Definition per_branch (f : nat * bkind -> list item) : Prop :=
+  forall jk it, In it (f jk) -> fst (item_sec it) = fst jk.
+
+Lemma on_lock_branches_aux f (Hf : per_branch f) j kd : forall c a,
+  (a <= j -> nth_error c (j - a) = Some kd ->
+   zon_lock j (flat_map f (combine (seq a (length c)) c)) = f (j, kd)) /\
+  (j < a -> zon_lock j (flat_map f (combine (seq a (length c)) c)) = []).
+Proof.
+  induction c as [|k0 c IH]; intros a; cbn [length seq combine flat_map].
+  - split; [intros _ H; destruct (j - a); discriminate|reflexivity].
+  - destruct (IH (S a)) as [IH1 IH2]. split.
+    + intros La Hn. rewrite on_lock_app. destruct (Nat.eq_dec a j) as [->|Hne].
+      * rewrite Nat.sub_diag in Hn. cbn in Hn. injection Hn as ->.
+        rewrite IH2 by lia. rewrite app_nil_r. apply on_lock_all. intros it Hi. apply (Hf _ _ Hi).
+      * rewrite (on_lock_none j (f (a, k0))) by (intros it Hi; rewrite (Hf _ _ Hi); cbn; lia).
+        cbn [app]. apply IH1; [lia|]. replace (j - a) with (S (j - S a)) in Hn by lia. exact Hn.
+    + intros L. rewrite on_lock_app, IH2 by lia. rewrite app_nil_r.
+      apply on_lock_none. intros it Hi. rewrite (Hf _ _ Hi). cbn. lia.
+Qed.
+
+Lemma on_lock_branches f (Hf : per_branch f) cfg j kd : nth_error cfg j = Some kd ->
+  zon_lock j (flat_map f (branches cfg)) = f (j, kd).
+Proof.
+  intros H. unfold branches. apply (proj1 (on_lock_branches_aux f Hf j kd cfg 0)); [lia|now rewrite Nat.sub_0_r].
+Qed.
+
+Definition log_gen (e : entry) (jk : nat * bkind) : list item :=
+  IWrite (fst jk) (snd jk) (nth (fst jk) (echunks e) []) :: (if esync e then [IFlush (fst jk)] else []).
+Definition sync_gen (jk : nat * bkind) : list item := [IFlush (fst jk)].
+
+Lemma log_gen_pb e : per_branch (log_gen e).
+Proof. intros jk it [<-|H]; [reflexivity|]. cbn in H. destruct (esync e); [destruct H as [<-|[]]; reflexivity|destruct H]. Qed.
+Lemma sync_gen_pb : per_branch sync_gen.
+Proof. intros jk it [<-|[]]. reflexivity. Qed.
+
+Lemma op_items_on cfg j kd o : nth_error cfg j = Some kd ->
+  Forall (bitem j kd) (zon_lock j (op_items cfg o)) /\
+  flat_map item_lines (zon_lock j (op_items cfg o)) = match o with OLog e => [eline j e] | _ => [] end.
+Proof.
+  intros H. destruct o as [e| |j']; cbn [op_items].
+  - unfold log_items. change (fun jk : nat * bkind => _) with (log_gen e).
+    rewrite (on_lock_branches _ (log_gen_pb e) cfg j kd H). unfold log_gen. cbn [fst snd]. split.
+    + constructor; [right; eauto|]. destruct (esync e); [constructor; [now left|constructor]|constructor].
+    + cbn [flat_map item_lines app]. unfold eline. destruct (esync e); reflexivity.
+  - replace (map (fun jk : nat * bkind => IFlush (fst jk)) (branches cfg)) with (flat_map sync_gen (branches cfg))
+      by (induction (branches cfg) as [|x r IHr]; [reflexivity|cbn; now rewrite IHr]).
+    rewrite (on_lock_branches _ sync_gen_pb cfg j kd H). cbn. split; [constructor; [now left|constructor]|reflexivity].
+  - unfold on_lock. cbn [filter item_sec fst]. destruct (Nat.eqb_spec j' j) as [->|]; cbn; split; auto.
+    constructor; [now left|constructor].
+Qed.
+
+Lemma thread_items_on cfg j kd ops : nth_error cfg j = Some kd ->
+  Forall (bitem j kd) (zon_lock j (thread_items cfg ops)) /\
+  flat_map item_lines (zon_lock j (thread_items cfg ops)) = thread_lines j ops.
+Proof.
+  intros H. induction ops as [|o r [IH1 IH2]]; [split; [constructor|reflexivity]|].
+  unfold thread_items, thread_lines in *. cbn [flat_map]. rewrite on_lock_app.
+  destruct (op_items_on cfg j kd o H) as [F L]. split.
+  - apply Forall_app. split; assumption.
+  - rewrite flat_map_app, L, IH2. reflexivity.
+Qed.
+
+Lemma merge_ext {B} (f g : nat -> list B) sigma : (forall t, f t = g t) -> MergeOf f sigma -> MergeOf g sigma.
+Proof. intros E (lab & Hm & Ho). exists lab. split; [exact Hm|]. intros t. now rewrite Ho. Qed.
+
+Lemma owned_in {B} t (x : B) lab : In (t, x) lab -> In x (owned t lab).
+Proof. intros H. unfold owned. apply in_map_iff. exists (t, x). split; [reflexivity|]. apply filter_In. split; [exact H|cbn; apply Nat.eqb_refl]. Qed.
+
+(* ------------------------------------------------------------------ *)
+(* C. the concurrent theorems                                           *)
+(* ------------------------------------------------------------------ *)
+(* every complete schedule leaves branch j in the state of a serial execution of
+   its sink calls, in an order whose lines are a merge of the threads' lines *)
+Lemma branch_serial cfg prog sched j kd :
+  nth_error cfg j = Some kd -> zcomplete (zrun cfg prog sched) ->
+  exists its, Forall (bitem j kd) its /\
+              MergeOf (prog_lines j prog) (flat_map item_lines its) /\
+              obj (zrun cfg prog sched) j = zexec_items its sink0.
+Proof.
+  intros Hk Hc.
+  destruct (atomicity sinkst sact sact_run item item_sec (fun t => thread_items cfg (nth t prog [])) (fun _ => sink0) sched Hc j)
+    as (lab & Ho & Hobj).
+  exists (map snd lab). split; [|split].
+  - apply Forall_forall. intros it Hin. apply in_map_iff in Hin. destruct Hin as ([t it'] & E & Hin). cbn in E. subst it'.
+    apply owned_in in Hin. rewrite Ho in Hin.
+    destruct (thread_items_on cfg j kd (nth t prog []) Hk) as [F _]. rewrite Forall_forall in F. now apply F.
+  - apply (merge_ext (fun t => flat_map item_lines (zon_lock j (thread_items cfg (nth t prog []))))).
+    + intros t. unfold prog_lines. apply (thread_items_on cfg j kd _ Hk).
+    + apply merge_flat_map. exists lab. split; [reflexivity|exact Ho].
+  - exact Hobj.
+Qed.
+
+(* Lock(ws) / CombineWriteSyncers / Open: at completion (no final Sync needed) every
+   underlying sink of the branch holds exactly a merge of the submitted lines *)
+Theorem locked_thm cfg prog sched j k :
+  nth_error cfg j = Some (KLocked k) -> zcomplete (zrun cfg prog sched) ->
+  exists sigma, MergeOf (prog_lines j prog) sigma /\
+                forall u, u < k -> outs (obj (zrun cfg prog sched) j) u = concat sigma.
+Proof.
+  intros Hk Hc. destruct (branch_serial cfg prog sched j _ Hk Hc) as (its & F & M & O).
+  exists (flat_map item_lines its). split; [exact M|]. intros u Hu. rewrite O.
+  destruct (serial_locked j k its F sink0 eq_refl) as [_ H]. now rewrite (H u Hu).
+Qed.
+
+(* BufferedWriteSyncer: after the final Sync the sink holds a merge; before it, a
+   whole number of lines of that merge *)
+Theorem buffered_thm cfg prog sched j size :
+  nth_error cfg j = Some (KBuffered size) -> zcomplete (zrun cfg prog sched) ->
+  exists sigma, MergeOf (prog_lines j prog) sigma /\
+                final_out (zrun cfg prog sched) j 0 = concat sigma /\
+                exists n, outs (obj (zrun cfg prog sched) j) 0 = concat (firstn n sigma).
+Proof.
+  intros Hk Hc. destruct (branch_serial cfg prog sched j _ Hk Hc) as (its & F & M & O).
+  exists (flat_map item_lines its). split; [exact M|]. unfold final_out. rewrite O. split.
+  - apply (serial_out j (KBuffered size) its F 0). cbn. lia.
+  - apply (serial_buffered_prefix j size its F).
+Qed.
+
+(* every branch of a tee, whatever its sink, receives the full set *)
+Theorem tee_thm cfg prog sched :
+  zcomplete (zrun cfg prog sched) ->
+  forall j kd, nth_error cfg j = Some kd ->
+  exists sigma, MergeOf (prog_lines j prog) sigma /\
+                forall u, u < nsinks kd -> final_out (zrun cfg prog sched) j u = concat sigma.
+Proof.
+  intros Hc j kd Hk. destruct (branch_serial cfg prog sched j _ Hk Hc) as (its & F & M & O).
+  exists (flat_map item_lines its). split; [exact M|]. intros u Hu. unfold final_out. rewrite O.
+  now apply (serial_out j kd its F u).
+Qed.
+
+(* at every moment of every schedule at which the mutex of branch j is free, its
+   sinks hold whole lines only: a merge of prefixes of the threads' lines *)
+Theorem quiescent_thm cfg prog sched j kd :
+  nth_error cfg j = Some kd -> holder (zrun cfg prog sched) j = None ->
+  exists (pre : nat -> list bytes) sigma,
+    (forall t, exists rest, pre t ++ rest = prog_lines j prog t) /\ MergeOf pre sigma /\
+    match kd with
+    | KLocked k => forall u, u < k -> outs (obj (zrun cfg prog sched) j) u = concat sigma
+    | KBuffered _ => exists n, outs (obj (zrun cfg prog sched) j) 0 = concat (firstn n sigma)
+    end.
+Proof.
+  intros Hk Hh.
+  destruct (atomicity_any sinkst sact sact_run item item_sec (fun t => thread_items cfg (nth t prog [])) (fun _ => sink0) sched j)
+    as (lab & part & Hobj & Hpart & Hpre).
+  rewrite (Hpart Hh) in Hobj.
+  change (obj (zrun cfg prog sched) j = zexec_items (map snd lab) sink0) in Hobj.
+  assert (F : Forall (bitem j kd) (map snd lab)).
+  { apply Forall_forall. intros it Hin. apply in_map_iff in Hin. destruct Hin as ([t it'] & E & Hin). cbn in E. subst it'.
+    apply owned_in in Hin. destruct (Hpre t) as (rest & P).
+    destruct (thread_items_on cfg j kd (nth t prog []) Hk) as [F _]. rewrite Forall_forall in F. apply F.
+    rewrite <- P. apply in_or_app. now left. }
+  exists (fun t => flat_map item_lines (owned t lab)), (flat_map item_lines (map snd lab)). split; [|split].
+  - intros t. destruct (Hpre t) as (rest & P). exists (flat_map item_lines rest).
+    rewrite <- flat_map_app, P. unfold prog_lines. apply (thread_items_on cfg j kd _ Hk).
+  - apply merge_flat_map. exists lab. split; [reflexivity|auto].
+  - rewrite Hobj. destruct kd as [k|size].
+    + intros u Hu. destruct (serial_locked j k _ F sink0 eq_refl) as [_ H]. now rewrite (H u Hu).
+    + apply (serial_buffered_prefix j size _ F).
+Qed.
+
+(* ------------------------------------------------------------------ *)
+(* D. the model can express the failures                                *)
+(* ------------------------------------------------------------------ *)
+Lemma prog_lines_lths j prog t : prog_lines j prog t = lths (map (thread_lines j) prog) t.
+Proof.
+  unfold prog_lines, lths. revert t. induction prog as [|p r IH]; intros [|t]; cbn [map nth]; auto.
+Qed.
+
+Lemma stream_ok_check j prog s :
+  (forall t l, In l (nth t (map (thread_lines j) prog) []) -> wf_line l = true) ->
+  StreamOk (prog_lines j prog) s -> check_stream (map (thread_lines j) prog) s = true.
+Proof.
+  intros W (sigma & M & E). apply check_stream_complete; [exact W|]. exists sigma. split; [|exact E].
+  eapply merge_ext; [|exact M]. intros t. apply prog_lines_lths.
+Qed.
+
+Definition ent (c : byte) : entry := {| echunks := [[[c]; [nl]]]; esync := false |}.
+Definition two_threads : list (list op) := [[OLog (ent x61)]; [OLog (ent x62)]].
+
+Lemma two_threads_wf t l : In l (nth t (map (thread_lines 0) two_threads) []) -> wf_line l = true.
+Proof.
+  destruct t as [|[|t]]; intros H.
+  - simpl in H. destruct H as [<-|[]]. reflexivity.
+  - simpl in H. destruct H as [<-|[]]. reflexivity.
+  - simpl in H. destruct t; contradiction.
+Qed.
+
+(* (a) the mutex dropped: "a" "\n" and "b" "\n" interleave as "ab\n\n" *)
+Theorem unlocked_refuted :
+  exists cfg prog sched,
+    let s := run sinkst sact sact_run (zcode_nolock cfg prog) (fun _ => sink0) sched in
+    complete sinkst sact s /\ ~ StreamOk (prog_lines 0 prog) (outs (obj s 0) 0).
+Proof.
+  exists [KLocked 1], two_threads, [0; 1; 0; 1]. split.
+  - intros [|[|[|t]]]; vm_compute; reflexivity.
+  - intros H. apply (stream_ok_check 0 two_threads _ two_threads_wf) in H. vm_compute in H. discriminate.
+Qed.
+
+(* (b) two sink calls per entry (line, then newline), each under the mutex: same tearing *)
+Theorem two_writes_refuted :
+  exists cfg prog sched,
+    let s := run sinkst sact sact_run (zcode_two cfg prog) (fun _ => sink0) sched in
+    complete sinkst sact s /\ ~ StreamOk (prog_lines 0 prog) (outs (obj s 0) 0).
+Proof.
+  exists [KLocked 1], two_threads, [0; 0; 0; 1; 1; 1; 1; 1; 1; 0; 0; 0]. split.
+  - intros [|[|[|t]]]; vm_compute; reflexivity.
+  - intros H. apply (stream_ok_check 0 two_threads _ two_threads_wf) in H. vm_compute in H. discriminate.
+Qed.
+
+(* (c) BufferedWriteSyncer without zap's pre-flush rule: bufio's fill-flush-continue
+   loop puts "ab\nc" into the sink -- a torn line at a crash point (size 4, "ab\n" then "cd\n") *)
+Theorem noflush_refuted :
+  exists size p q,
+    let x := bws_write_noflush size (bws_write_noflush size sink0 p) q in
+    wf_line p = true /\ wf_line q = true /\
+    ~ exists n, outs x 0 = concat (firstn n [p; q]).
+Proof.
+  exists 4, [x61; x62; x0a], [x63; x64; x0a]. split; [reflexivity|]. split; [reflexivity|].
+  intros (n & H). vm_compute in H. destruct n as [|[|[|n]]]; discriminate.
+Qed.
+
+(* ------------------------------------------------------------------ *)
+(* E. wire                                                              *)
+(* ------------------------------------------------------------------ *)
+Lemma branches_in cfg jk : In jk (branches cfg) ->
+  nth_error cfg (fst jk) = Some (snd jk) /\ forall d, nth (fst jk) (branches cfg) d = jk.
+Proof.
+  unfold branches. intros H.
+  assert (G : forall c a, In jk (combine (seq a (length c)) c) ->
+            a <= fst jk /\ nth_error c (fst jk - a) = Some (snd jk) /\
+            forall d, nth (fst jk - a) (combine (seq a (length c)) c) d = jk).
+  { induction c as [|k0 c IH]; intros a Hin; [destruct Hin|]. cbn [length seq combine] in *.
+    destruct Hin as [<-|Hin].
+    - cbn [fst snd]. rewrite Nat.sub_diag. auto.
+    - destruct (IH (S a) Hin) as (L & N & D). split; [lia|].
+      replace (fst jk - a) with (S (fst jk - S a)) by lia. auto. }
+  destruct (G cfg 0 H) as (_ & N & D). rewrite Nat.sub_0_r in *. auto.
+Qed.
+
+Lemma branches_length cfg : length (branches cfg) = length cfg.
+Proof. unfold branches. rewrite combine_length, seq_length. apply Nat.min_id. Qed.
+
+Lemma write_items_lines cfg j kd ops : nth_error cfg j = Some kd ->
+  Forall (bitem j kd) (write_items_on cfg j ops) /\
+  flat_map item_lines (write_items_on cfg j ops) = thread_lines j ops.
+Proof.
+  intros H. destruct (thread_items_on cfg j kd ops H) as [F L]. unfold write_items_on. rewrite <- L. split.
+  - apply Forall_forall. intros it Hi. apply filter_In in Hi. rewrite Forall_forall in F. now apply F.
+  - clear. induction (zon_lock j (thread_items cfg ops)) as [|it r IH]; [reflexivity|].
+    cbn [filter]. destruct it; cbn [flat_map item_lines app]; [now rewrite IH|exact IH].
+Qed.
+
+Lemma nth_map_nil {A B} (f : list A -> list B) (l : list (list A)) t : f [] = [] -> nth t (map f l) [] = f (nth t l []).
+Proof. intros H. revert t. induction l as [|x r IH]; intros [|t]; cbn; auto. Qed.
+
+Lemma serial_branch_ok cfg prog hint j kd : nth_error cfg j = Some kd ->
+  forall u, u < nsinks kd ->
+  StreamOk (lths (map (thread_lines j) prog)) (outs (serial_branch cfg prog hint j) u).
+Proof.
+  intros Hk u Hu. unfold serial_branch.
+  set (its := pick hint (map (write_items_on cfg j) prog)).
+  assert (M : MergeOf (lths (map (write_items_on cfg j) prog)) its) by apply pick_merge.
+  assert (F : Forall (bitem j kd) its).
+  { apply Forall_forall. intros it Hi. destruct (merge_elems _ _ _ M Hi) as (t & Ht). unfold lths in Ht.
+    rewrite (nth_map_nil (write_items_on cfg j)) in Ht by reflexivity.
+    destruct (write_items_lines cfg j kd (nth t prog []) Hk) as [F _]. rewrite Forall_forall in F. now apply F. }
+  exists (flat_map item_lines its). split.
+  - apply (merge_ext (fun t => flat_map item_lines (lths (map (write_items_on cfg j) prog) t))).
+    + intros t. unfold lths. rewrite (nth_map_nil (write_items_on cfg j)) by reflexivity.
+      rewrite (nth_map_nil (thread_lines j)) by reflexivity. apply (write_items_lines cfg j kd _ Hk).
+    + now apply merge_flat_map.
+  - now apply (serial_out j kd its F u).
+Qed.
+
+Lemma nth_map_lt {A B} (f : A -> B) l n d d' : n < length l -> nth n (map f l) d = f (nth n l d').
+Proof. revert n. induction l as [|x r IH]; intros [|n] H; cbn in *; try lia; auto. apply IH. lia. Qed.
+
+Theorem spec_model i : wf i = true -> spec i (model i) = true.
+Proof.
+  intros W. unfold spec, model, wf in *. cbn [sx_l].
+  rewrite map_length, branches_length, Nat.eqb_refl. cbn [andb].
+  apply forallb_forall. intros jk Hin.
+  rewrite forallb_forall in W. specialize (W jk Hin).
+  destruct (branches_in _ _ Hin) as [Hk Hn].
+  assert (L : fst jk < length (branches (dec_cfg i))).
+  { rewrite branches_length. apply nth_error_Some. now rewrite Hk. }
+  match goal with |- context [sx_nth (SL (map ?F ?l)) (fst jk)] =>
+    assert (E : sx_nth (SL (map F l)) (fst jk) = F jk)
+      by (unfold sx_nth; cbn [sx_l]; now rewrite (nth_map_lt F l _ _ (0, KLocked 0) L), Hn);
+    rewrite !E; clear E end.
+  unfold sx_nth. cbn [sx_l nth sx_z].
+  rewrite map_length, seq_length, Nat.eqb_refl. cbn [andb Z.eqb Pos.eqb].
+  apply forallb_forall. intros st Hst. apply in_map_iff in Hst. destruct Hst as (u & <- & Hu).
+  apply in_seq in Hu. apply check_stream_complete.
+  - intros t l Hl. rewrite (nth_map_nil (thread_lines (fst jk))) in Hl by reflexivity.
+    destruct (Nat.lt_ge_cases t (length (dec_prog i))) as [Lt|G].
+    + rewrite forallb_forall in W. specialize (W (nth t (dec_prog i) []) (nth_In _ _ Lt)).
+      rewrite forallb_forall in W. now apply W.
+    + rewrite nth_overflow in Hl by exact G. destruct Hl.
+  - apply (serial_branch_ok _ _ _ _ _ Hk). lia.
+Qed.
+
+(* the hypothesis of the concurrent theorems is satisfiable for every configuration and program *)
+Theorem complete_exists_thm cfg prog : exists sched, zcomplete (zrun cfg prog sched).
+Proof.
+  apply (complete_exists sinkst sact sact_run item item_sec (fun t => thread_items cfg (nth t prog [])) (fun _ => sink0) (length prog)).
+  intros t Ht. now rewrite nth_overflow.
+Qed.
